@@ -695,7 +695,7 @@ func (vc *VC) evalUnary(st *State, x *ast.UnaryExpr) Val {
 			return Val{S: fmt.Sprintf("(- (- %s) 1)", v.S), Ty: t, Sort: "Int"}
 		}
 	case token.ARROW:
-		vc.unsupportedf(x.Pos(), "channel receive")
+		vc.concurrency(x.Pos(), "channel receive")
 		return vc.havocVal(st, vc.typeOf(x), "recv")
 	}
 	vc.unsupportedf(x.Pos(), "unary %s", x.Op)
